@@ -1,15 +1,34 @@
-"""Scheduling: JobScheduler(s) driving a DAG of string-named jobs (priorities with ties, intervals below / equal to /
-above the tick, dependencies incl. diamonds and a missing dependency, targets that take non-zero time, instant
-targets, a hanging run, several jobs becoming ready at the same tick, disable/enable, remove/re-add, stop/start)
-and WorkStealingPool(s) (2-5 workers, uneven task sizes from several distributions, bursts at one instant, tasks
+"""Scheduling: JobScheduler(s) driving a DAG of string-named jobs (priorities with ties / negative / large, intervals
+below / equal to / above / not a multiple of the tick, interval 0, dependencies incl. diamonds, a missing dependency, a
+two-job cycle and a self-dependency, targets that take non-zero time, instant targets, a hanging run, several jobs
+becoming ready at the same tick, disable/enable, remove/re-add, stop/start, stop+start at one instant) and
+WorkStealingPool(s) (1-16 workers, uneven task sizes from several distributions, bursts at one instant, tasks
 without a size key, an optional second pool chained behind the first, jobs that feed the pool directly or fan
 tasks out into it).  Everything runs under the engine through Sources, the scheduler's own tick loop and small
-harness entities."""
+harness entities.
+
+Configuration space:
+  * every duration (tick interval, job interval, job run times, chaos times, scheduler start time, burst times, task
+    sizes, server time) comes from the boundary palette `dur_ms`: tick intervals of 5 ms ... 2.1 s incl. values that
+    lose a nanosecond as seconds (1.001 s, 2.05 s), job intervals above one second (lossy), intervals that are 0.5 /
+    1.5 / 0.999 / 1.001 ticks, run times longer than the job's own interval and longer than the tick, zero run times;
+    a tick interval below one nanosecond is rejected by the constructor (fix 90821de) and never generated;
+  * 1-8 jobs per scheduler; "clones": the same job set under further schedulers that differ only in the tick interval
+    (bank of tick variants inside one scenario);
+  * WorkStealingPool: every constructor parameter (num_workers 1 ... 16, downstream present / None,
+    processing_time_key, default_processing_time incl. 0); "bank": further pools with other num_workers / downstream /
+    default that receive a copy of every source task and burst; utilisation 0.3 ... 4.0 (sustained overload: queues
+    only grow), all tasks without a size key, half of the tasks with zero size, bursts of up to 200 same-instant tasks;
+  * occasional long runs (8-12 s).
+Neither component has a hard-coded internal size constant (no maxlen / history cap / steal batch size: a thief takes
+exactly one task from the tail of the longest deque, deterministically, no RNG), so there is nothing to exceed with
+`size_over`; queue depths reach several hundred in the overload regimes.
+"""
 from __future__ import annotations
 
 import random
 
-from hv.scenarios.base import T, seed_all, stats_of, sub_seed
+from hv.scenarios.base import T, dur_ms, seed_all, stats_of, sub_seed
 
 NAME = "scheduling"
 MODEL = None
@@ -18,7 +37,7 @@ COMPONENTS = ["JobScheduler", "JobDefinition", "WorkStealingPool", "_Worker", "S
 JOB_NAMES = ["extract", "transform", "load", "report", "index-users", "compact", "backup", "email-17",
              "agg-3", "k3", "user-17", "vacuum", "rollup", "export"]
 LAYOUTS = ["chain", "fanout", "fanin", "diamond", "random", "flat", "two-chains"]
-DISTS = ["bimodal", "uniform", "exp", "const", "pareto"]
+DISTS = ["bimodal", "uniform", "exp", "const", "pareto", "palette"]
 
 
 # ------------------------------------------------------------------------------------------------ cfg
@@ -42,11 +61,67 @@ def _deps(layout, i, names, rng):
     return sorted(rng.sample(names[:i], k))
 
 
+def _r3(x):
+    """keep derived durations JSON-neat (at most 3 decimals of a ms); ints stay ints"""
+    return int(x) if float(x).is_integer() else round(float(x), 3)
+
+
+def _gen_tick(rng, end_ms):
+    """tick interval in ms from the boundary palette; at most ~300 ticks per scheduler and run.
+    (Below one nanosecond the constructor rejects the interval since /repo 90821de: never generated.)"""
+    lo = max(5, -(-end_ms // 300))
+    band = rng.choice(["fine", "fine", "mid", "mid", "coarse", "lossy"])
+    if band == "fine":
+        return dur_ms(rng, lo, max(lo, 50))
+    if band == "mid":
+        return dur_ms(rng, max(lo, 50), 300)
+    if band == "coarse":
+        return dur_ms(rng, 300, 1500)
+    return dur_ms(rng, 1001, 2100)          # mostly values that lose a nanosecond as seconds (1.001, 2.05)
+
+
+def _gen_interval(rng, tick):
+    r = rng.random()
+    if r < 0.04:
+        return 0                              # due at every tick
+    if r < 0.10:
+        return 1                              # far below the tick
+    if r < 0.30:
+        return _r3(tick * rng.choice([1, 1, 2, 3]))
+    if r < 0.40:
+        return _r3(tick * rng.choice([0.5, 1.5, 2.5, 0.999, 1.001]))   # not a multiple of the tick
+    if r < 0.55:
+        return dur_ms(rng, 5, 400)
+    if r < 0.75:
+        return dur_ms(rng, 100, 1500)
+    if r < 0.90:
+        return dur_ms(rng, 1001, 2500)        # above one second, often lossy (1.001 s, 2.05 s)
+    return dur_ms(rng, 300, 1000)
+
+
+def _gen_delay(rng, tick, interval):
+    """run time of a job: below / equal to / above the tick and the job's own interval"""
+    r = rng.random()
+    if r < 0.05:
+        return 0
+    if r < 0.30:
+        return rng.choice([1, 2, 5])
+    if r < 0.55:
+        return dur_ms(rng, 1, 60)
+    if r < 0.65:
+        return dur_ms(rng, 20, 300)
+    if r < 0.78:
+        return _r3(tick * rng.choice([1, 1, 2, 0.5]))
+    if r < 0.90:
+        return _r3(max(1, interval) * rng.choice([1, 1.5, 3]))        # as long as / longer than the interval
+    return dur_ms(rng, 1001, 2100)
+
+
 def _gen_sched(rng, tag, end_ms):
-    n = rng.randint(3, 8)
+    n = rng.choice([1, 2, 3, 4, 5, 6, 7, 8, 3, 4, 5, 6])
     names = rng.sample(JOB_NAMES, n)
     layout = rng.choice(LAYOUTS)
-    tick = rng.choice([t for t in [7, 10, 20, 25, 50, 100, 250] if end_ms // t <= 300])
+    tick = _gen_tick(rng, end_ms)
     n_workers = rng.randint(1, n)
     jobs = []
     for i, nm in enumerate(names):
@@ -54,37 +129,47 @@ def _gen_sched(rng, tag, end_ms):
         deps = _deps(layout, i, names, rng)
         if i >= n - 2 and rng.random() < 0.08:
             deps = deps + ["ghost-job"]          # dependency that is never registered
+        interval = _gen_interval(rng, tick)
         jobs.append({
             "name": nm,
-            "prio": rng.randint(0, 3),           # few values => ties between jobs due at the same tick
-            # mostly longer than the job's own duration (so that dependants get a chance), sometimes every tick
-            "interval_ms": rng.choice([1, tick, 2 * tick, 3 * tick, rng.randint(5, 400), rng.randint(100, 1200),
-                                       rng.randint(200, 1500), rng.randint(300, 1000), rng.randint(150, 600)]),
+            # few values => ties between jobs due at the same tick; sometimes negative / large
+            "prio": rng.choice([0, 1, 2, 3, 0, 1, 2, 3, -1, 100]),
+            "interval_ms": interval,
             "deps": deps,
             "kind": kind,
             "worker": rng.randint(0, n_workers - 1),
-            "delays_ms": [rng.choice([1, 2, 5, rng.randint(1, 60), rng.randint(1, 60), rng.randint(20, 300), tick,
-                                      2 * tick]) for _ in range(rng.randint(1, 4))],
+            "delays_ms": [_gen_delay(rng, tick, interval) for _ in range(rng.randint(1, 4))],
             "hang_at": rng.randint(2, 6) if rng.random() < 0.1 else None,
             "fanout": rng.choice([0, 0, 0, 1, 3, 6]),
-            "size_ms": rng.randint(1, 80),
+            "size_ms": dur_ms(rng, 1, 80),
             "enabled": rng.random() < 0.93,
         })
+    if n >= 2 and rng.random() < 0.06:           # two jobs waiting for each other: neither ever runs
+        jobs[0]["deps"] = jobs[0]["deps"] + [names[1]]
+        jobs[1]["deps"] = jobs[1]["deps"] + [names[0]]
+    if rng.random() < 0.05:                      # a job that depends on itself
+        jb = rng.choice(jobs)
+        jb["deps"] = jb["deps"] + [jb["name"]]
     chaos = []
     for _ in range(rng.randint(0, 3)):
         j = rng.choice(names)
-        t1 = rng.randint(100, end_ms - 600)
-        t2 = t1 + rng.choice([tick // 2 or 1, tick, 3 * tick, rng.randint(50, 500)])
-        op = rng.choice(["disable", "remove", "stop"])
+        t1 = dur_ms(rng, 100, end_ms - 600)
+        t2 = _r3(t1 + rng.choice([_r3(tick / 2), tick, _r3(3 * tick), dur_ms(rng, 50, 500)]))
+        op = rng.choice(["disable", "remove", "stop", "restart"])
         chaos.append([t1, op, j])
-        chaos.append([t2, {"disable": "enable", "remove": "readd", "stop": "start"}[op], j])
+        if op != "restart":
+            chaos.append([t2, {"disable": "enable", "remove": "readd", "stop": "start"}[op], j])
     if not all(jb["enabled"] for jb in jobs):
         for jb in jobs:
             if not jb["enabled"]:
-                chaos.append([rng.randint(200, end_ms - 500), "enable", jb["name"]])
+                chaos.append([dur_ms(rng, 200, end_ms - 500), "enable", jb["name"]])
     chaos.sort(key=lambda c: c[0])
+    # the same job set under further schedulers that differ only in the tick interval (bank of tick variants)
+    clones = []
+    if rng.random() < 0.45:
+        clones = [_gen_tick(rng, end_ms) for _ in range(rng.choice([1, 2]))]
     return {"name": tag, "tick_ms": tick, "layout": layout, "jobs": jobs, "chaos": chaos,
-            "start_ms": rng.choice([0, 0, 0, 3, 50])}
+            "start_ms": rng.choice([0, 0, 0, 3, 50, dur_ms(rng, 1, 1500)]), "clones": clones}
 
 
 def _gen_dist(rng, mean_ms):
@@ -100,13 +185,24 @@ def _gen_dist(rng, mean_ms):
     if kind == "exp":
         return {"kind": kind, "mean_ms": m}
     if kind == "const":
-        return {"kind": kind, "ms": m}
+        return {"kind": kind, "ms": dur_ms(rng, max(1, m // 2), max(2, 2 * m))}
+    if kind == "palette":                      # a few boundary-palette task times, incl. 0 and (rarely) above 1 s
+        pal = [dur_ms(rng, 1, max(2, 2 * m), zero=True) for _ in range(rng.randint(1, 4))]
+        if rng.random() < 0.2:
+            pal.append(dur_ms(rng, 1001, 2100))
+        return {"kind": kind, "ms": pal}
     return {"kind": kind, "scale_ms": max(1, m // 3), "alpha": rng.choice([1.5, 2.0, 3.0]), "cap_ms": 20 * m}
 
 
 def _gen_pool(rng, end_ms):
-    workers = rng.randint(2, 5)
-    chain_workers = rng.choice([0, 0, 2, 3])     # >0: a second pool behind the first one
+    workers = rng.choice([1, 2, 2, 3, 3, 4, 4, 5, 5, 8, 16])
+    chain_workers = rng.choice([0, 0, 2, 3, 1])     # >0: a second pool behind the first one
+    # further pools that receive a copy of every source task (bank of num_workers / downstream / default variants)
+    bank = []
+    if rng.random() < 0.5:
+        for w in rng.sample([1, 2, 3, 4, 6, 8], rng.choice([1, 2, 2])):
+            bank.append({"workers": w, "downstream": rng.random() < 0.7,
+                         "default_ms": rng.choice([0, 1, dur_ms(rng, 1, 50)])})
     sources = []
     for _ in range(rng.randint(1, 3)):
         sources.append({"rate": rng.choice([10, 20, 40, 80, 120]), "poisson": rng.random() < 0.5,
@@ -116,31 +212,43 @@ def _gen_pool(rng, end_ms):
         return sum(s["rate"] * s["batch"] for s in sources)
 
     # about 6 deliveries per task and pool; keep the pool side below ~7000 deliveries
-    while total_rate() * (end_ms - 500) / 1000.0 * (12 if chain_workers else 6) > 7000:
+    mult = 6 * (1 + (1 if chain_workers else 0) + len(bank))
+    while total_rate() * (end_ms - 500) / 1000.0 * mult > 7000:
         big = max(sources, key=lambda s: s["rate"] * s["batch"])
         if big["batch"] > 1:
             big["batch"] //= 2
-        else:
+        elif big["rate"] > 2:
             big["rate"] //= 2
+        else:
+            break
     total = total_rate()
-    util = rng.choice([0.3, 0.6, 0.85, 1.0, 1.3])
+    # 0.3-0.85 light, 1.0 critical, 1.3-4.0 sustained overload (queues only grow, nothing is ever stolen)
+    util = rng.choice([0.3, 0.6, 0.85, 1.0, 1.3, 2.0, 4.0])
     mean_ms = util * workers * 1000.0 / total
     for s in sources:
         s["dist"] = _gen_dist(rng, mean_ms * rng.choice([0.5, 1.0, 1.0, 2.0]))
-        s["nokey_pct"] = rng.choice([0, 0, 10, 30])
+        s["nokey_pct"] = rng.choice([0, 0, 10, 30, 100])
+    bursts = []
+    for _ in range(rng.choice([0, 1, 1, 2])):
+        bursts.append([dur_ms(rng, 1, end_ms - 300, zero=True), rng.choice([5, 12, 40, 100, 200])])
     return {
         "workers": workers,
         "key": rng.choice(["processing_time", "processing_time", "cost"]),
-        "default_ms": max(1, int(mean_ms)),
+        "default_ms": rng.choice([0, max(1, int(mean_ms)), max(1, int(mean_ms)), dur_ms(rng, 1, max(2, 2 * mean_ms))]),
         "sources": sources,
-        "zero_pct": rng.choice([0, 0, 0, 2]),
+        "zero_pct": rng.choice([0, 0, 0, 2, 50]),
         "chain_workers": chain_workers,
-        "burst": [rng.randint(100, 1500), rng.randint(5, 40)] if rng.random() < 0.5 else None,
+        "burst": None,                            # old-shape single burst [t_ms, n]; new cfgs use "bursts"
+        "bursts": bursts,
+        "bank": bank,
+        "downstream": rng.random() < 0.85,        # False: pool without downstream (completions go nowhere)
     }
 
 
 def gen_cfg(rng):
     end = rng.choice([2.0, 3.0, 4.0, 5.0])
+    if rng.random() < 0.1:
+        end = rng.choice([8.0, 10.0, 12.0])
     end_ms = int(end * 1000)
     scheds = [_gen_sched(rng, "cron", end_ms)]
     if rng.random() < 0.4:
@@ -150,20 +258,21 @@ def gen_cfg(rng):
     # otherwise every worker is permanently backlogged and nothing is ever stolen
     load = 0.0
     for sc in scheds:
-        for jb in sc["jobs"]:
-            eff = max(jb["interval_ms"], sc["tick_ms"])
-            if eff < 50:
-                jb["fanout"] = min(jb["fanout"], 1)
-            if jb["kind"] == "pool":
-                load += jb["size_ms"] / eff
-            if jb["kind"] in ("gen", "instant"):
-                load += sum(jb["size_ms"] * (1 + f) for f in range(jb["fanout"])) / eff
+        for tick in [sc["tick_ms"]] + sc["clones"]:
+            for jb in sc["jobs"]:
+                eff = max(jb["interval_ms"], tick)
+                if eff < 50:
+                    jb["fanout"] = min(jb["fanout"], 1)
+                if jb["kind"] == "pool":
+                    load += jb["size_ms"] / eff
+                if jb["kind"] in ("gen", "instant"):
+                    load += sum(jb["size_ms"] * (1 + f) for f in range(jb["fanout"])) / eff
     budget = 0.25 * pool["workers"]
     if load > budget:
         for sc in scheds:
             for jb in sc["jobs"]:
-                jb["size_ms"] = max(1, int(jb["size_ms"] * budget / load))
-    return {"end": end, "scheds": scheds, "pool": pool, "srv_ms": rng.randint(2, 40),
+                jb["size_ms"] = max(1, _r3(jb["size_ms"] * budget / load))
+    return {"end": end, "scheds": scheds, "pool": pool, "srv_ms": dur_ms(rng, 1, 60),
             "srv_conc": rng.randint(1, 2)}
 
 
@@ -205,16 +314,28 @@ def build(cfg, seed):
 
     sink = DoneSink("done")
     pools = []
+    last_down = sink if pc.get("downstream", True) else None
     if pc["chain_workers"]:
-        pool2 = WorkStealingPool("pool-b", num_workers=pc["chain_workers"], downstream=sink,
+        pool2 = WorkStealingPool("pool-b", num_workers=pc["chain_workers"], downstream=last_down,
                                  processing_time_key=key, default_processing_time=pc["default_ms"] / 2000.0)
         pool = WorkStealingPool("pool-a", num_workers=pc["workers"], downstream=pool2,
                                 processing_time_key=key, default_processing_time=pc["default_ms"] / 1000.0)
         pools = [pool, pool2]
     else:
-        pool = WorkStealingPool("pool-a", num_workers=pc["workers"], downstream=sink,
+        pool = WorkStealingPool("pool-a", num_workers=pc["workers"], downstream=last_down,
                                 processing_time_key=key, default_processing_time=pc["default_ms"] / 1000.0)
         pools = [pool]
+    # bank: further pools (other num_workers / no downstream / other default time) that get a copy of every source task
+    bank_sinks = []
+    bank_pools = []
+    for bi, bc in enumerate(pc.get("bank", [])):
+        bsink = DoneSink(f"done-k{bi}") if bc["downstream"] else None
+        bp = WorkStealingPool(f"pool-k{bi}", num_workers=bc["workers"], downstream=bsink,
+                              processing_time_key=key, default_processing_time=bc["default_ms"] / 1000.0)
+        bank_pools.append(bp)
+        pools.append(bp)
+        if bsink is not None:
+            bank_sinks.append(bsink)
 
     def draw(rng, d):
         k = d["kind"]
@@ -226,6 +347,8 @@ def build(cfg, seed):
             return rng.expovariate(1000.0 / d["mean_ms"])
         if k == "const":
             return d["ms"] / 1000.0
+        if k == "palette":
+            return rng.choice(d["ms"]) / 1000.0
         return min(d["cap_ms"], d["scale_ms"] * rng.paretovariate(d["alpha"])) / 1000.0
 
     class Tasks(EventProvider):
@@ -247,6 +370,9 @@ def build(cfg, seed):
                     md[key] = size
                 out.append(Event(time=time, event_type="Task", target=pool,
                                  context={"created_at": time, "metadata": md}))
+                for bp in bank_pools:
+                    out.append(Event(time=time, event_type="Task", target=bp,
+                                     context={"created_at": time, "metadata": dict(md)}))
             return out
 
     sources, providers = [], []
@@ -327,12 +453,15 @@ def build(cfg, seed):
                     s.add_job(self.defs[j])
             elif op == "stop":
                 s.stop()
+            elif op == "restart":          # stop and start again at the same instant
+                s.stop()
+                return [s.start()]
             elif op == "start":
                 if not s.is_running:
                     return [s.start()]
             return None
 
-    entities = [*pools, sink, server]
+    entities = [*pools, sink, *bank_sinks, server]
     for p in pools:
         entities.extend(p.workers)
     pre = []
@@ -342,12 +471,16 @@ def build(cfg, seed):
     def _ns(t):
         return None if t is None else t.nanoseconds
 
+    variants = []
     for sc in cfg["scheds"]:
-        sn = sc["name"]
+        variants.append((sc["name"], sc.get("tick_s") or sc["tick_ms"] / 1000.0, sc))
+        for ci, t_ms in enumerate(sc.get("clones", [])):     # same jobs, other tick interval
+            variants.append((f"{sc['name']}~{ci}", t_ms / 1000.0, sc))
+    for sn, tick_s, sc in variants:
         # "tick_s" is never generated (gen_cfg stays on the ms grid); it lets a caller replay the sub-nanosecond
         # tick interval case (tick_interval=1e-10 passes the `> 0` validation, becomes a 0 ns Duration and the
         # tick loop spins at a frozen clock)
-        sched = JobScheduler(sn, tick_interval=sc.get("tick_s") or sc["tick_ms"] / 1000.0)
+        sched = JobScheduler(sn, tick_interval=tick_s)
         workers = {}
         defs = {}
         for jb in sc["jobs"]:
@@ -408,16 +541,30 @@ def build(cfg, seed):
             pre.append(Event(time=T(t_ms / 1000.0), event_type="Task", target=pool,
                              context={"created_at": T(t_ms / 1000.0),
                                       "metadata": {"task_id": f"burst-{b}", key: draw(brng, d0)}}))
+    for bj, (t_ms, n) in enumerate(pc.get("bursts", [])):
+        if t_ms / 1000.0 >= end:
+            continue
+        brng = random.Random(sub_seed(seed, "bursts", bj))
+        d0 = pc["sources"][bj % len(pc["sources"])]["dist"]
+        for b in range(n):      # n tasks submitted to every pool of the bank at the same (sometimes lossy) instant
+            size = draw(brng, d0)
+            for p in [pool, *bank_pools]:
+                pre.append(Event(time=T(t_ms / 1000.0), event_type="Task", target=p,
+                                 context={"created_at": T(t_ms / 1000.0),
+                                          "metadata": {"task_id": f"burst{bj}-{b}", key: size}}))
     for e in pre:
         sim.schedule(e)
 
     obs["joblog"] = lambda: {"n": len(joblog), "log": list(joblog)}
     obs["done"] = sink.stats
+    for bs in bank_sinks:
+        obs[bs.name] = bs.stats
     obs["server"] = stats_of(server)
     obs["server.q"] = lambda: {"acc": server.stats_accepted, "drop": server.stats_dropped, "depth": server.depth}
     obs["sources"] = lambda: [[s.name, s.generated_count] for s in sources] + [[p.tag, p.generated] for p in providers]
     for p in pools:
         obs[p.name] = stats_of(p)
+        obs[p.name + ".n"] = (lambda p=p: p.num_workers)
         obs[p.name + ".workers"] = (lambda p=p: [
             {"name": w.name, "completed": ws.tasks_completed, "stolen": ws.tasks_stolen,
              "busy": ws.total_processing_time, "idle": ws.idle_time, "depth": w.queue_depth}
